@@ -67,6 +67,7 @@ type world struct {
 	plan    sim.DialAnswer
 	open    bool // reference: the connection is logically open
 	everOpn bool
+	overlap bool // some Open/Close was started while another lifecycle call was still pending
 	hist    []string
 }
 
@@ -178,6 +179,9 @@ func (x *world) apply(ev string) {
 		// strict expectations only when no other lifecycle call is in flight (Open/Close
 		// serialise on one mutex, so a pending one legitimately delays and reorders this one)
 		quiet := x.pending("close") == 0 && x.pending("openBG") == 0 && x.pending("openWait") == 0
+		if !quiet {
+			x.overlap = true // lifecycle calls overlap: their order is the library's, the reference "open" flag is a guess
+		}
 		wasOpen := x.open
 		dials := w.Net.DialCount()
 		st0 := w.C.State()
@@ -198,6 +202,9 @@ func (x *world) apply(ev string) {
 			}
 		}
 	case "close":
+		if x.pending("close") != 0 || x.pending("openBG") != 0 || x.pending("openWait") != 0 {
+			x.overlap = true
+		}
 		x.start("close", closeTimeout+connTimeout, func() error { return w.C.Close() })
 		x.open = false
 	case "send":
@@ -325,10 +332,11 @@ func run(t *testing.T, cf cfg, hist []string, onLeak func(string)) *failure {
 func (x *world) final() {
 	w := x.w
 	x.hist = append(x.hist, "[final]")
-	// An open connection (the last Open succeeded, no Close since, no lifecycle call in flight) that
+	// An open connection (the last Open succeeded, no Close since, no lifecycle call in flight, and no two
+	// lifecycle calls ever overlapped — else their order, hence "open", is not known to the harness) that
 	// is not connected must still be working on it: a redundant Open that failed with ErrAlreadyOpen,
 	// an update or a send has "no side effects" only if the reconnect machinery survived it.
-	if x.open && x.fail == nil && x.pending("close") == 0 && x.pending("openBG") == 0 && x.pending("openWait") == 0 &&
+	if x.open && !x.overlap && x.fail == nil && x.pending("close") == 0 && x.pending("openBG") == 0 && x.pending("openWait") == 0 &&
 		w.C.State() == hsms.NotConnectedState {
 		x.plan = sim.Accept
 		dials, alive := w.Net.DialCount(), false
